@@ -7,6 +7,11 @@ INT_TYPES = {"u8": (0, 2**8 - 1), "i8": (-2**7, 2**7 - 1), "u16": (0, 2**16 - 1)
              "u32": (0, 2**32 - 1), "i32": (-2**31, 2**31 - 1), "u64": (0, 2**64 - 1), "i64": (-2**63, 2**63 - 1),
              "usize": (0, 2**64 - 1), "isize": (-2**63, 2**63 - 1)}
 ANY = "<any>"
+REFUSED = "<must be refused>"
+# generic values outside what the crate can represent: negative times, zero / impossible dates, 
+OUT_OF_DOMAIN = ["mtime:1:0:1:2:3:0", "mtime:1:2:0:0:0:5", "mtime:1:0:0:0:0:0", "mdate:0:0:0:0:0:0:0", "mdate:2020:0:1:0:0:0:0",
+                 "mdate:2020:13:1:0:0:0:0", "mdate:2021:2:29:0:0:0:0", "mdate:2020:1:1:24:0:0:0", "mdate:2020:1:1:0:60:0:0"]
+OUT_OF_DOMAIN_BIN = OUT_OF_DOMAIN + ["mtime:0:35:0:0:0:0"]      # the binary TIME layout has a day limit; the text form has none
 INT_COLS = {1: 1, 2: 2, 13: 2, 3: 4, 9: 4, 8: 8}
 WIDTH = {"u8": 1, "i8": 1, "u16": 2, "i16": 2, "u32": 4, "i32": 4, "u64": 8, "i64": 8}
 
